@@ -15,7 +15,7 @@ class Prop:
     quick_runs = 120000
     thorough_runs = 2000000
     rule = ("seeded pipelines (depth 1-4, 1-4 logged cold/hot/sync sources plus inner/trigger/sampler/duration pool sources) with "
-            "terminating patterns emphasised; once the root recorder has its terminal and every window/group recorder has terminated, "
+            "terminating patterns emphasised (in a fifth of the runs the subscriber's own terminal callback raises, provided no subscribe() call is in progress at that moment); once the root recorder has its terminal and every window/group recorder has terminated, "
             "every logged source subscription must be disposed no later than that virtual instant and none may be open at the end; no "
             "library-scheduled action may run at a later virtual time (leaked timer/sampler). Distinct = (operators, root kinds, number of "
             "source subscriptions); non-trivial = the root terminated and at least one source subscription existed.")
@@ -38,6 +38,8 @@ class Prop:
                 if rng.random() < 0.5:
                     ins.reverse()
             sc["program"] = {"op": name, "id": ctx.next_id(), "a": r.gen(ctx), "in": ins}
+        if rng.random() < 0.2:
+            sc["raise_on_terminal"] = True  # the subscriber's own on_completed / on_error callback raises: everything is released all the same
         return sc
 
     def execute(self, sc):
@@ -58,6 +60,8 @@ class Prop:
         out.nontrivial = nsubs > 0
         term = rec.terminal()
         out.probes["terminal_" + term[2]] += 1
+        if any(f[1].endswith(":terminal") for f in w.fired):
+            out.faults["subscriber_terminal_callback_raises"] += 1
         if any(s.sub_seq < last_seq and (s.disp_seq or 0) > 0 and s.disp_seq <= last_seq + 2 for src in w.sources.values() for s in src.subs):
             out.probes["released_by_termination"] += 1
         for src in w.sources.values():
